@@ -58,6 +58,9 @@ enum BusState {
  * Directly handles input from and output to eBUS with respect to the eBUS protocol.
  */
 class DirectProtocolHandler : public ProtocolHandler {
+#ifdef EBUSD_VERIF
+  friend struct VerifAccess;  // verification harness access (no behaviour change)
+#endif
  public:
   /**
    * Construct a new instance.
